@@ -57,7 +57,9 @@ fn ops(pad: &'static str) -> Vec<Vec<S>> {
         set("s", s()),
         // strings produced by the other built-ins
         set("s", meth(s(), "slice", vec![num("1"), num("4")])),
-        set("s", meth(s(), "replace", vec![st("s"), t()])),
+        // (the pattern occurs once: a pattern that also occurs in the padding makes three such
+        // replacements grow the string beyond all memory, which is a property of the program)
+        set("s", meth(s(), "replace", vec![st("s0"), t()])),
         set("s", meth(add(s(), st("  ")), "trim", vec![])),
         set("t", meth(s(), "to_lowercase", vec![])),
         set("s", call("to_string", vec![a()])),
